@@ -32,6 +32,12 @@ BANNED = {"as_completed": "yields results in completion order", "wait": "returns
 EXPRS = ["[1] U ([2] O [3])", "([2] O [3]) U [1]", "[3][901] X [1][902] U [2]", "[2] U [501] O [3] U [502] O [1]"]
 
 
+def Opaque_data():
+    from ..fdvalues import Opaque
+
+    return Opaque("evaluatable_data", truthy=True, not_none=True)
+
+
 def _mixed_eval_worker(args):
     from pathlib import Path
 
@@ -112,6 +118,44 @@ def check(ctx: Ctx) -> None:
                 ctx.ob("C12.mixed", f"{''.join('A' if s else 'p' for s in shape) or 'empty'}:{order}", outs == [want],
                        f"gather_if_necessary on items {['awaitable' if s else 'plain' for s in shape]} ({order} schedule) gives {outs}, expected every item at its own position",
                        file="src/ahbicht/utility_functions.py", line=gin.node.lineno, function=gin.qualname)
+    # ---- C12.align: every key is paired with the value produced for it (keys unsorted, both schedules, sync/async mixes)
+    from ..fdvalues import EnumVal
+
+    key_lists = [["3", "1", "2"], ["2", "2", "1"], ["10", "9"], []]
+    for keys in key_lists:
+        for order in ("fwd", "rev"):
+            for async_keys in ((), tuple(keys[:1]), tuple(keys[1:])):
+                def run(ch, keys=keys, order=order, async_keys=async_keys):
+                    go = (lambda n: range(n)) if order == "fwd" else (lambda n: list(reversed(range(n))))
+                    states = {"1": F, "2": U, "3": K, "9": U, "10": F}
+                    h = Harness(model, ch, rc={k: states[k] for k in set(keys)}, fc={f"90{k}": (k in ("1", "10"), f"m{k}") for k in set(keys)},
+                                hints={f"50{k}": f"text {k}" for k in set(keys)}, async_keys=tuple(async_keys) + tuple(f"90{k}" for k in async_keys), gather_order=go)
+                    it = h.it
+                    out = {}
+                    try:
+                        r = it.await_(it.call(it.getattr(h.rc_eval, "evaluate_conditions", None, None), [list(keys), Opaque_data()], {}, None, None), None, None)
+                        out["rc"] = {k: (v.name if isinstance(v, EnumVal) else repr(v)) for k, v in r.items()}
+                        r = it.await_(it.call(it.getattr(h.fc_eval, "evaluate_format_constraints", None, None), [[f"90{k}" for k in keys]], {}, None, None), None, None)
+                        out["fc"] = {k: (v.fields.get("format_constraint_fulfilled"), v.fields.get("error_message")) for k, v in r.items()}
+                        r = it.await_(it.call(it.getattr(h.hints, "get_hints", None, None), [[f"50{k}" for k in keys]], {}, None, None), None, None)
+                        out["hints"] = {k: (v.fields.get("hint"), v.fields.get("condition_key")) for k, v in r.items()}
+                    except PyRaise as err:
+                        return ("raise", err.exc.cls)
+                    return ("ret", out, states)
+
+                outs = [o for _, o in explore(run)]
+                ctx.count()
+                ok = len(outs) == 1 and outs[0][0] == "ret"
+                detail = outs
+                if ok:
+                    out, states = outs[0][1], outs[0][2]
+                    ok = (out["rc"] == {k: states[k] for k in keys}
+                          and out["fc"] == {f"90{k}": (k in ("1", "10"), f"m{k}") for k in keys}
+                          and out["hints"] == {f"50{k}": (f"text {k}", f"50{k}") for k in keys})
+                    detail = out
+                ctx.ob("C12.align", f"{keys}:{order}:async={list(async_keys)}", ok,
+                       f"evaluating keys {keys} ({order} schedule, async evaluators for {list(async_keys)}): {detail}; every key must be paired with its own value",
+                       file="src/ahbicht/content_evaluation/rc_evaluators.py", function="evaluate_conditions / evaluate_format_constraints / get_hints")
     # ---- C12.evaluators: any mix of sync/async per-key methods, both schedules
     base = {}
     results = mixed_evaluator_results(model)
